@@ -143,7 +143,8 @@ func exprAtoms() []*E {
 		lit("0.5", data.Float(0.5)), lit("2.0", data.Float(2)), lit("-1.25", data.Float(-1.25)),
 		lit("''", data.String("")), lit("'a'", data.String("a")), lit("'7'", data.String("7")),
 		lit(`'x<&">'`, data.String(`x<&">`)), lit("'é'", data.String("é")),
-		lit(`'\''`, data.String("'")), lit(`'\\'`, data.String(`\`)), lit(`'a\nb'`, data.String("a\nb")), lit(`'é'`, data.String("é")),
+		lit(`'\''`, data.String("'")), lit(`'\\'`, data.String(`\`)), lit(`'a\nb'`, data.String("a\nb")), lit(`'\u00e9'`, data.String("é")),
+		lit(`'é\\'`, data.String("é\\")), lit(`'\'ü€😀\t'`, data.String("'ü€😀\t")), lit(`'\u00e9é\u20ac'`, data.String("éé€")),
 		lit("0x1F", data.Int(31)), lit("1e3", data.Float(1000)), lit("1.5e-2", data.Float(0.015)),
 		{K: "list"}, {K: "list", A: []*E{lit("1", data.Int(1)), lit("'b'", data.String("b"))}},
 		{K: "map"}, {K: "map", Keys: []string{"k"}, A: []*E{lit("'v'", data.String("v"))}},
